@@ -28,7 +28,7 @@ def build_cases(tier, seed):
         else:
             # interrupt attempts with all instruction types, double dispatch, re-dispatch
             ctrl = hostile_stack(p=[0.2, 0.4][i % 2], builtin=(i % 4 != 1), n=1 + (i % 6 == 5), kinds=None if i % 2 else ["DispatchTrip", "DispatchTrip", "Idle", "DispatchStation", "ChargeStation", "ReserveBase", "DispatchBase", "Reposition", "OutOfService", "ChargeBase"])
-        cases.append(trace_case("C03", i, s, prof, ctrl, steps, ["C03"], opts=({"cosim_noops": 5 + i % 7} if i % 4 == 2 else {})))
+        cases.append(trace_case("C03", i, s, prof, ctrl, steps, ["C03"], opts=({"cosim_noops": 5 + i % 7} if i % 4 == 2 else {"inject_requests": {"every": 5, "public": i % 8 == 0}} if i % 4 == 0 else {"cosim_ops": {"every": 11, "kinds": ["add_vehicle"]}} if i % 8 == 3 else {})))
     if tier == "thorough":
         for w in ("denver_downtown/denver_demo.yaml", "denver_downtown/denver_demo_fleets.yaml"):
             cases.append(shipped_case("C03", w, 500, ["C03"], controller=hostile_stack(0.2), tag="h"))
